@@ -90,12 +90,23 @@ DESC = {
 "C15g": "RefResolver seeds the store with the bundled metaschemas only when cache_remote is on", "C16g": "Validator.resolver becomes a lazy property (registry snapshot taken at first use, not at construction)",
 "C17g": "ErrorTree files an error under its keyword only if error.validator is not None (false-schema errors dropped)", "C18g": "Decimal branch of multipleOf yields inside decimal.localcontext() with narrowed precision (suspended iterator leaves the thread's context changed)",
 "C19g": "CLI checks the schema only when no --validator was given", "C20g": "CLI loads files with parse_float=Decimal (draft-6/7 integer-valued floats rejected)",
+"C01h": "deprecated types= builds on the legacy default type checker instead of the class's own (draft-6/7 floats, draft-3 'any')", "C02h": "iter_errors no longer pushes the ROOT schema's id as a scope (wrong base when the resolver's base URI is not the root id)",
+"C03h": "anyOf pre-checks every branch with is_valid before collecting errors (2**depth steps for stacked failing anyOf)", "C04h": "check_schema validates against the metaschema of validator_for(schema, default=cls) instead of cls.META_SCHEMA",
+"C05h": "iter_errors breaks (instead of continues) when a keyword callable returns None", "C06h": "iter_errors tests `if ref:` (siblings of an empty $ref become active; their schema paths lead nowhere)",
+"C07h": "per-validator memo of is_type keyed by (instance class, type)", "C08h": "uniq() sort path skips members whose length differs from the first without advancing `previous`",
+"C09h": "CLI loads JSON with parse_float=Decimal (Decimal % raises InvalidOperation for huge quotients)", "C10h": "draft-3 properties treats a `default` annotation as satisfying `required`",
+"C11h": "per-validator memo of is_type keyed by (instance class, type) inside one check_schema call", "C12h": "ref() turns a ValueError raised below it (e.g. by a custom format function) into RefResolutionError",
+"C13h": "is_ipv4 via socket.inet_pton (ValueError / UnicodeEncodeError for NUL and surrogates not listed)", "C14h": "resolve_from_url uses store.get(url) and treats a stored null document as missing",
+"C15h": "RefResolver.resolve strips trailing '/' from the joined URL (store documents whose URL ends in '/' are fetched)", "C16h": "RefResolver.__init__ uses store.setdefault(base_uri, referrer) (a re-registered metaschema id wins over the referrer)",
+"C17h": "ErrorTree files errors in sorted (path, validator) order (None vs str TypeError)", "C18h": "a store that already is a URIDict is adopted, not copied (two resolvers alias one store)",
+"C19h": "_PrettyFormatter runs the header (with the file path) through str.format twice", "C20h": "by_relevance appends the keyword name as tie-break (None vs str TypeError in validate())",
 }
 MISSED = set("C03 C07 C12 C15 C16 C20 C02b C06b C07b C10b C11b C14b C19b C01c C02c C06c C10c C12c C15c C16c C18c C19c C20c "
              "C02d C04d C05d C07d C09d C13d C15d C16d C18d C19d C20d "
              "C01e C02e C04e C05e C07e C10e C11e C12e C14e C15e C16e C19e C20e "
              "C02f C03f C04f C07f C11f C12f C17f C18f "
-             "C01g C02g C05g C08g C09g C10g C12g C14g C16g C18g".split())
+             "C01g C02g C05g C08g C09g C10g C12g C14g C16g C18g "
+             "C01h C02h C03h C04h C05h C06h C09h C12h C14h C18h C19h C20h".split())
 rows = []
 for name in sorted(os.listdir(os.path.join(HERE, "seeded"))):
     mp = os.path.join(HERE, "seeded", name, "meta.json")
